@@ -159,6 +159,14 @@ class Project:
             self.by_relpath[rel] = mod
         for mod in self.modules.values():
             self._index(mod)
+        # functions annotated `-> NoReturn` never continue: tell the CFG builder
+        from . import cfg as _cfg
+
+        for mod in self.modules.values():
+            for info in mod.functions.values():
+                ret = getattr(info.node, "returns", None)
+                if ret is not None and dotted(ret) in ("NoReturn", "typing.NoReturn", "Never"):
+                    _cfg.NO_RETURN.setdefault(info.name, _cfg.GENERIC)
 
     def _index(self, mod: Module) -> None:
         # imports anywhere in the module (function-local imports are common in this code base)
